@@ -342,6 +342,9 @@ func solveFile(file string, quickSec, fullSec int) SolveResult {
 	return last
 }
 
+// noReseed: claiming must not rely on the reseeded retry (only robustly provable obligations are claimed).
+var noReseed bool
+
 var reseeded = []solverSpec{
 	{"z3-new", func(f string, s int) []string {
 		return []string{"z3-new", "smt.random_seed=17", "sat.random_seed=17", fmt.Sprintf("-T:%d", s), f}
@@ -440,7 +443,7 @@ func solveAllF(results []*FuncResult, limits func(o *Oblig) (int, int), par int)
 						j.o.Res = &r2
 					}
 				}
-				if !j.o.Res.Proved(j.o) && !j.o.WantSat && f > 0 && (j.o.Res.Status == "timeout" || j.o.Res.Status == "unknown") {
+				if !noReseed && !j.o.Res.Proved(j.o) && !j.o.WantSat && f > 0 && (j.o.Res.Status == "timeout" || j.o.Res.Status == "unknown") {
 					// last attempt: the same query with other random seeds (quantifier instantiation is sensitive to
 					// them; a proof that usually takes a second must not fail the check because of one unlucky run)
 					r4 := solveFileReseeded(file, f)
